@@ -43,6 +43,20 @@ Definition check_c07 (bs : bytes) (impl : obs_decode) : bool :=
   | _ => true
   end.
 
+(* C07, second half: a database built by the library's operations (db: the lists
+   the implementation holds, enc: its encoding of them) encodes as the layout
+   says, to a stream that decodes to an equal database (Theorem C07_ops_roundtrip) *)
+Definition check_c07_built (db : list siglist) (enc : bytes) (impl : obs_decode) : bool :=
+  bytes_eqb (enc_db db) enc &&
+  match read_signature_database enc with
+  | Ret db' => db_eqb db db' &&
+               match impl with
+               | Some (db2, reenc) => db_eqb db2 db' && bytes_eqb reenc enc
+               | None => false
+               end
+  | _ => false
+  end.
+
 Definition decodes (bs : bytes) : bool :=
   match read_signature_database bs with Ret (_ :: _) => true | _ => false end.
 Definition decodes_any (bs : bytes) : bool :=
